@@ -49,7 +49,8 @@ META = {
     "assumptions": ["file clock: instants strictly increase along the history; a write/touch at instant t sets mtime = ctime = t (no utime() into the past "
                     "or future), except the initial 'preserved-mtime' state with ctime > mtime", "requests are HEAD (body delivery is C02's subject)",
                     "'changed' for the stale-304 clause means: size differs, or mtime moved by >= 1 s (the statement's own granularity)"],
-    "bounds": {"quick": {"history": "R0;op;R1", "ops": len(OPS), "forms": len(FORMS)}, "thorough": {"history": "R0;op;R1;op;R2", "ops": len(OPS), "forms": len(FORMS)}},
+    "bounds": {"quick": {"history": "R0;op;R1 and R0;op;R1;op;R2", "ops": len(OPS), "forms": len(FORMS)},
+               "thorough": {"history": "up to R0;op;R1;op;R2;op;R3", "ops": len(OPS), "forms": len(FORMS)}},
     "outside": ["histories longer than the bound", "mtime set by utime()", "hash collisions", "real file systems with coarse timestamp granularity"],
     "expect_kinds": {"all": ["304", "200"]},
 }
@@ -508,13 +509,25 @@ def jobs(tier: str):
                         if init == "preserved-mtime" and form not in ("etag", "last-modified", "both"):
                             continue
                         out.append(dict(name=f"{iface}/{app}/{init}/{op}/{form}", iface=iface, app=app, init=init, steps=[(op, form, 0)]))
+    # two modifications: validators of either earlier response
+    for iface in ("wsgi", "asgi"):
+        for op1, op2 in itertools.product(OPS, repeat=2):
+            for form in ("etag", "last-modified", "both", "list-weak-last"):
+                for src in (0, 1):
+                    out.append(dict(name=f"{iface}/files/fresh/{op1}+{op2}/{form}/from{src}", iface=iface, app="files", init="fresh",
+                                    steps=[(op1, "etag", 0), (op2, form, src)], weight=5))
     if tier == "thorough":
+        # three modifications (validators of any earlier response), and two on a file whose mtime was preserved by a copy
         for iface in ("wsgi", "asgi"):
+            for op1, op2, op3 in itertools.product(OPS[1:], repeat=3):
+                for form in ("etag", "last-modified", "both"):
+                    for src in (0, 1, 2):
+                        out.append(dict(name=f"{iface}/files/fresh/{op1}+{op2}+{op3}/{form}/from{src}", iface=iface, app="files", init="fresh",
+                                        steps=[(op1, "etag", 0), (op2, "both", 1), (op3, form, src)], weight=8))
             for op1, op2 in itertools.product(OPS, repeat=2):
-                for form in ("etag", "last-modified", "both", "list-weak-last"):
-                    for src in (0, 1):
-                        out.append(dict(name=f"{iface}/files/fresh/{op1}+{op2}/{form}/from{src}", iface=iface, app="files", init="fresh",
-                                        steps=[(op1, "etag", 0), (op2, form, src)], weight=5))
+                for form in ("etag", "last-modified", "both"):
+                    out.append(dict(name=f"{iface}/pages/preserved-mtime/{op1}+{op2}/{form}/from1", iface=iface, app="pages", init="preserved-mtime",
+                                    steps=[(op1, "etag", 0), (op2, form, 1)], weight=5))
     out.append(dict(name="twin", iface="wsgi", app="files", init="fresh", steps=[("none", "etag", 0)], twin=True))
     return out
 
